@@ -14,10 +14,16 @@
       noop_closure_capture     `(()=>x);` (any closure-creating expression statement) in front of such a
                                statement is dropped
     `list_rewrite_sound` is the generic theorem they are instances of.
-  NOT proved (exercised by the correspondence only): block_wrap, iife_wrap, const_inline,
+      block_wrap               every wrappable statement (not a let/const/function declaration, not a loop or
+                               labelled statement) is put into a block of its own.  This changes the evaluation
+                               depth, so the theorem is an inequational simulation in both directions
+                               (`block_wrap_le`, `block_wrap_ge`) and, from them, equality of finished outcomes
+                               (`block_wrap_sound`).
+  NOT proved (exercised by the correspondence only): iife_wrap, const_inline,
   expr_stmt_vs_value_position, toString re-evaluation.
 -/
 import GojaModel.C02.Instances
+import GojaModel.C02.Wrap
 
 namespace GojaModel.C02
 
@@ -89,6 +95,32 @@ theorem rewrites_preserve_outcome (P : Prog) (n : Nat) :
   rw [dead_code_after_abrupt_sound, if_false_dead_branch_sound, noop_closure_capture_sound]
   exact ⟨rfl, rfl, rfl⟩
 
+/-! ### block_wrap (depth-changing rewrite: simulation up to fuel) -/
+
+/-- Whatever the block-wrapped program finishes with fuel `n`, the original finishes with fuel `n`, equally
+(any task, environment, state). -/
+theorem block_wrap_le (P : Prog) (n : Nat) (t : Task) (env : Env) (st : St) :
+    Res.le (eval (blockWrap P) n (wMap.T t) env st) (eval P n t env st) :=
+  wrap_le P n t env st
+
+/-- Whatever the original finishes with fuel `n`, the block-wrapped program finishes with fuel `2n`, equally. -/
+theorem block_wrap_ge (P : Prog) (n : Nat) (t : Task) (env : Env) (st : St) :
+    Res.le (eval P n t env st) (eval (blockWrap P) (2 * n) (wMap.T t) env st) :=
+  le_wrap P n t env st
+
+/-- A script and its block-wrapped version have the same finished outcomes. -/
+theorem block_wrap_sound (P : Prog) (r : Res) (hfin : r ≠ .timeout) :
+    (∃ n, run (blockWrap P) n = r) ↔ (∃ n, run P n = r) := by
+  constructor
+  · rintro ⟨n, h⟩
+    rcases run_wrap_le P n with h1 | h1
+    · rw [h] at h1; exact absurd h1 hfin
+    · exact ⟨n, by rw [← h1, h]⟩
+  · rintro ⟨n, h⟩
+    rcases run_le_wrap P n with h1 | h1
+    · rw [h] at h1; exact absurd h1 hfin
+    · exact ⟨2 * n, by rw [← h1, h]⟩
+
 /-! ### non-vacuity (tests on literals: the rewrites do change concrete programs) -/
 
 /-- `log(1); if (false) { eval("") } throw 2; log(3)` inside a function that is called. -/
@@ -106,5 +138,7 @@ example : progSize (deadCodeAfterAbrupt demo) = 8 ∧ progSize demo = 9 := by de
 example : progSize (ifFalseDeadBranch demo) = 5 := by decide
 example : progSize (noopClosureCapture demo) = 8 := by decide
 example : (run demo 10).show = "T 2 | 1" := by decide
+example : progSize (blockWrap demo) = 18 := by decide
+example : (run (blockWrap demo) 10).show = "T 2 | 1" := by decide
 
 end GojaModel.C02
